@@ -43,6 +43,10 @@ def base_case(rng):
         w1 = G.rand_opinion(rng, n, den, rng.choice(kinds) if kinds else G.rand_kind(rng))
         w2 = G.rand_opinion(rng, n, den, rng.choice(kinds) if kinds else G.rand_kind(rng))
         fo = rng.randint(0, 3)
+        if op == "fuse" and rng.random() < 0.2:
+            # self-fusion: by value with two equal objects, and by reference with the very same object
+            vs = variants_1d("fuse", [n, fo, 0], w1 + w1, extra=("", "alias"))
+            return vs, ("plain", n)
         if op == "fuse":
             vs = variants_1d("fuse", [n, fo, 0], w1 + w2, extra=("", "asg"))
             # related forms: bare simplex on the right with the left base rate shared
@@ -52,7 +56,10 @@ def base_case(rng):
             vs += [("fuse", fam + ".r", [n, fo, 1], w1 + w2[:n + 1] + w1[n + 1:]) for fam in G.FAMS_1D]
             return vs, ("fuse_os", n)
         if op == "fuse_ss":
-            fo = rng.choice([0, 2, 3])
+            fo = rng.choice([0, 1, 2, 3])      # 1 = ECm: must be refused in every form, in place too
+            if fo == 1:
+                vs = variants_1d("fuse_ss", [n, fo], w1[:n + 1] + w2[:n + 1], styles=("o",), extra=("", "asg"))
+                return vs, ("plain", n)
             vs = variants_1d("fuse_ss", [n, fo], w1[:n + 1] + w2[:n + 1], styles=("o",), extra=("", "asg"))
             vs += [("fuse", fam + ".o", [n, fo, 0], w1 + w2[:n + 1] + w1[n + 1:]) for fam in G.FAMS_1D]
             return vs, ("fuse_ss", n)
